@@ -3,6 +3,7 @@ package props
 import (
 	"bytes"
 	"fmt"
+	"strings"
 	"testing"
 	"time"
 
@@ -193,7 +194,11 @@ func runC04(sc *C04Script) *sim.Outcome {
 			s.nText++
 			n := capLen(op.L, sc.Cfg.V, sc.Cfg.fragOf(who))
 			text := append([]byte(token(who, s.nText)), filler(op.F, n, s.nText)...)
-			text = append([]byte([]string{"", "", "", "", "?OTR", "?OTRv23? ", "?OTR?v2? ", "?OTR Error: ", "?OTR:AAMD", "?OTR|", "?OTR,1,2,"}[op.X%11]), text...)
+			text = append([]byte([]string{"", "", "", "", "?OTR", "?OTRv23? ", "?OTR?v2? ", "?OTR Error: ", "?OTR:AAMD", "?OTR|", "?OTR,1,2,", "", "", ""}[op.X%14]), text...)
+			if op.X%14 >= 11 {
+				// a text made of blanks only is a text (several in a row differ in length so that order stays decidable)
+				text = []byte([]string{" ", "\n", "\t \r\n "}[op.X%14-11] + strings.Repeat(" ", s.nText%7))
+			}
 			c := w.Send(who, text)
 			if c.Err != nil {
 				o.Fail("C04/send-error", "Send failed in an encrypted session: %v", c.Err)
@@ -211,6 +216,12 @@ func runC04(sc *C04Script) *sim.Outcome {
 				who = 1 - who
 			}
 			s.afterReceive(w.Deliver(who, 0))
+		case "frag":
+			// the application changes the fragment size in mid-session, to anything a uint16 can hold: sizes too small
+			// to carry a header are the library's business, not a reason to lose text
+			sizes := []int{0, 1, 2, 5, 16, 17, 18, 19, 20, 30, 35, 36, 37, 38, 40, 60, 100, 333, 1000, 65535}
+			w.P[who].C.SetFragmentSize(uint16(sizes[op.L%len(sizes)]))
+			o.Class("fragment-size-changed")
 		case "sk":
 			// the next D-H key pair this party generates has a public value that is a byte shorter than usual
 			w.P[who].R.ArmShort(who)
@@ -308,8 +319,11 @@ func genC04Ops(t *rapid.T, maxOps int, maxLen int) []C04Op {
 	n := rapid.IntRange(1, maxOps).Draw(t, "nops")
 	ops := make([]C04Op, 0, n)
 	for i := 0; i < n; i++ {
-		k := rapid.SampledFrom([]string{"s", "s", "s", "s", "s", "s", "d", "d", "d", "d", "d", "d", "d", "d", "age", "smp", "ans", "ans", "xk", "sk"}).Draw(t, "k")
+		k := rapid.SampledFrom([]string{"s", "s", "s", "s", "s", "s", "d", "d", "d", "d", "d", "d", "d", "d", "age", "smp", "ans", "ans", "xk", "sk", "frag"}).Draw(t, "k")
 		op := C04Op{K: k, W: rapid.IntRange(0, 1).Draw(t, "w")}
+		if k == "frag" {
+			op.L = rapid.IntRange(0, 19).Draw(t, "size")
+		}
 		if k == "s" {
 			cls := rapid.IntRange(0, len(lenClasses)-1).Draw(t, "lc")
 			op.L = lenClasses[cls]
@@ -320,7 +334,7 @@ func genC04Ops(t *rapid.T, maxOps int, maxLen int) []C04Op {
 				op.L = maxLen
 			}
 			op.F = rapid.IntRange(0, 4).Draw(t, "f")
-			op.X = rapid.IntRange(0, 10).Draw(t, "prefix")
+			op.X = rapid.IntRange(0, 13).Draw(t, "prefix")
 		}
 		ops = append(ops, op)
 	}
